@@ -24,6 +24,7 @@ def run(rep):
     v2(rep, dev)
     v3(rep, worlds)
     v4(rep, rel)
+    v5(rep, dev)
 
 
 def features_of(snip):
@@ -236,3 +237,96 @@ def v3(rep, worlds):
 def v4(rep, rel):
     c09.f1(rep, rel, 'rel')
     c02.p5(rep, rel)
+
+
+PROGRAM_INT_SOURCES = ('validate_integer', 'begin', 'end', 'current', 'step')
+
+
+def v5(rep, w, rid='V5'):
+    """overflow checks exist only in the checked build: arithmetic on a program-chosen integer that can overflow panics there and
+    wraps silently in the optimised build. Every overflow-checked isize/i64 operation reachable from Vm::run whose operands derive
+    from program-chosen integers must be proven in range by interval analysis (sign guards) or be listed with its reason."""
+    import c04_narrow as cn
+    c = w.yarel
+    tab = {e['key']: e for e in c01.table('c10_overflow_ok.json')}
+    ptab = c01.table('c10_param_bounds.json')
+    r = rep.rule(rid, 'overflow-checked arithmetic on program-chosen integers cannot overflow (checked and optimised builds would diverge)', floor=4)
+    ISZ = (-(2 ** 63), 2 ** 63 - 1)
+    saved = dict(cn.TYPE_RANGE)
+    cn.TYPE_RANGE['isize'] = ISZ
+    cn.TYPE_RANGE['i64'] = ISZ
+    cn.TYPE_RANGE['usize'] = (0, 2 ** 64 - 1)
+    try:
+        reach = w.reach_from({'yarel::vm::Vm::run'})
+        used = set()
+        for p in sorted(reach):
+            f = w.fns[p]
+            if f.crate is not c or f.file.endswith('debug.rs'):
+                continue
+            has = any((s.get('r', {}).get('rv') == 'bin' and 'WithOverflow' in s['r']['op']) or (s.get('r', {}).get('rv') == 'un' and s['r']['op'] == 'Neg')
+                      for b in f.blocks for s in b['s'])
+            if not has:
+                continue
+            org = origins(f)
+            it = cn.Interp(w, f, {})
+            for e in ptab:
+                if e['fn'] == p:
+                    it.param_bounds[e['param']] = (e['lo'], e['hi'])
+            it.run()
+            for (bi, si), (op, a, b, res, sp, rv) in sorted(it.ovf.items()):
+                tys = []
+                toks = set()
+                for o in (rv['a'], rv['b']):
+                    pl = op_place(o)
+                    if pl is None:
+                        continue
+                    tys.append(f.crate.tstr(pl.get('t', f.local_ty(pl['l']))))
+                    for q in org.get(pl['l'], ()):
+                        toks |= {x for x in q[1:] if not x.startswith('@') and x != '*'}
+                        if q[0][0] == 'call':
+                            toks.add(q[0][2].rsplit('::', 1)[-1])
+                    toks |= {e.get('n') for e in pl.get('p', []) if isinstance(e, dict)}
+                if not any(t in ('isize', 'i64') for t in tys):
+                    continue
+                if not (toks & set(PROGRAM_INT_SOURCES)):
+                    continue
+                key = '%s / %s on %s' % (p.replace('yarel::', ''), op.replace('WithOverflow', ''), '+'.join(sorted(toks & set(PROGRAM_INT_SOURCES))))
+                in_range = res[0] >= ISZ[0] and res[1] <= ISZ[1]
+                if in_range:
+                    r.ok(key + ' (proved in range: %s op %s)' % (short(a), short(b)))
+                elif key in tab:
+                    used.add(key)
+                    r.ok(key + ' (listed: %s)' % tab[key]['why'])
+                else:
+                    r.bad(key, 'the operation can overflow isize for program-chosen operands (%s, %s): the checked build panics with "attempt to '
+                          '%s with overflow" where the optimised build wraps and carries on' % (short(a), short(b), op[:3].lower()), f.loc(sp))
+        # the parameter bounds used above are established by every caller
+        for e in ptab:
+            g = w.require_fn(e['fn'], 'C10')
+            for (hf, bj, t) in c01.callers_of(w, e['fn']):
+                it = cn.Interp(w, hf, {})
+                it.run()
+                st = it.transfer_prefix(bj, len(hf.blocks[bj]['s']))
+                iv = it.eval_op(st, t['args'][e['param'] - 1])
+                r.check(iv[0] >= e['lo'] and iv[1] <= e['hi'], '%s passes %s in [%s, %s] to %s' % (hf.path.replace('yarel::', ''), g.local_name(e['param']), short_n(e['lo']), short_n(e['hi']), g.name),
+                        'caller passes %s, outside the bound the callee\'s overflow argument relies on' % (short(iv),), hf.loc(t.get('sp')))
+        for k in tab:
+            if k not in used:
+                r.note('listed site not present on this tree: ' + k)
+    finally:
+        cn.TYPE_RANGE.clear()
+        cn.TYPE_RANGE.update(saved)
+
+
+def short_n(v):
+    if v >= 2 ** 63 - 1:
+        return 'isize::MAX'
+    if v <= -(2 ** 63):
+        return 'isize::MIN'
+    if v >= 10 ** 29:
+        return 'inf'
+    return str(v)
+
+
+def short(iv):
+    return '[%s, %s]' % (short_n(iv[0]), short_n(iv[1]))
